@@ -87,7 +87,7 @@ theorem invert_characters_eq (bs : Bytes) :
       Py.setItem (done ++ c :: rest) (done.length : Int) v k = k (done ++ v :: rest) := by
     intro v k hv
     simp [Py.setItem, Py.normIndex, Py.len, hneg, h0, hv]
-  simp only [hget]
+  simp only [Src.Str._invert_characters_loop1_body, hget]
   by_cases hc : (0x22 : Int) ≤ c ∧ c ≤ 0x7E
   · have hr := invI_range fl c hc
     have hv : invI fl c = 0x9F - c - (if fl then (if c ≥ 0x50 then -0x2E else 0x2E) else 0) := by
